@@ -957,6 +957,12 @@ def proj_ok(tf, X):
 # ------------------------------------------------------------------------------------------
 def run(ctx):
     q = ctx.quick
+    only = getattr(ctx, "only", None)
+
+    def product(name, *a, **kw):
+        if only and not any(name.startswith(p) for p in only):
+            return None
+        return ctx.product(name, *a, **kw)
     ctx.rule = ("every drawing call is made on a fresh HyperbolicDrawing/ProjectiveDrawing (one figure per case, calls "
                 "made one at a time, new artist located by diffing the artists of all open axes); cases = model x drawing "
                 "transform x all ordered vertex tuples / point pairs / centre-reference pairs of the lattices; a case is "
@@ -990,10 +996,10 @@ def run(ctx):
     combos = [(m, t) for m in MODELS for t in TFS]
     dom = {"models": MODELS, "transforms": list(TFS), "lattice": pts}
 
-    ctx.product("polygons-3", "checks.c19:case_polygons", polygon_cases(pts, [3], combos),
+    product("polygons-3", "checks.c19:case_polygons", polygon_cases(pts, [3], combos),
                 domains=dict(dom, tuples="all ordered non-degenerate vertex triples of a %d-point Klein lattice" % len(pts)), chunk=4)
     sub4 = [sub[i] for i in (0, 1, 4, 5, 7, 9)] if q else [sub[i] for i in (0, 1, 2, 4, 5, 7, 9, 11, 13)]
-    ctx.product("polygons-4-5", "checks.c19:case_polygons", polygon_cases(sub4, [4] if q else [4, 5], combos),
+    product("polygons-4-5", "checks.c19:case_polygons", polygon_cases(sub4, [4] if q else [4, 5], combos),
                 domains={"sub-lattice": sub4, "tuples": "all ordered non-degenerate %s-tuples, convex or not" % ("4" if q else "4- and 5")}, chunk=2)
     if not q:
         big = [sub[i] for i in (0, 1, 4, 5, 7, 9, 11, 13)]
@@ -1009,7 +1015,7 @@ def run(ctx):
                         tails = tails[::6]
                     for s in range(0, len(tails), 40):
                         cases.append({"model": model, "tf": tf, "head": [P[0], P[j]], "tails": tails[s:s + 40]})
-        ctx.product("polygons-6-7-8", "checks.c19:case_polygons", cases,
+        product("polygons-6-7-8", "checks.c19:case_polygons", cases,
                     domains={"sub-lattice": big, "tuples": "all orderings with first vertex fixed of the first 6 / first 7 points; "
                              "every 6th ordering (lexicographic) of all 8 points"}, chunk=2, exhaustive=True)
     # composites: two polygons in one call
@@ -1018,7 +1024,7 @@ def run(ctx):
     for (model, tf) in combos:
         for a, b in itertools.permutations(range(len(tri)), 2):
             comp.append({"model": model, "tf": tf, "polys": [tri[a], tri[b]]})
-    ctx.product("polygon-composites", "checks.c19:case_polygon_composite", comp,
+    product("polygon-composites", "checks.c19:case_polygon_composite", comp,
                 domains={"composites": "all ordered pairs of %d triangles as one (2,)-composite" % len(tri)}, chunk=4)
 
     # geodesics / segments
@@ -1029,7 +1035,7 @@ def run(ctx):
             gc.append({"model": model, "tf": tf, "kind": "segment", "a": a, "bs": [b for b in pts if b != a]})
         for a in dirs:
             gc.append({"model": model, "tf": tf, "kind": "geodesic", "a": a, "bs": [b for b in dirs if b != a]})
-    ctx.product("geodesics", "checks.c19:case_geodesics", gc,
+    product("geodesics", "checks.c19:case_geodesics", gc,
                 domains={"segments": "all ordered pairs of the %d-point lattice" % len(pts),
                          "geodesics": "all ordered pairs of %d ideal directions incl. antipodal pairs and the point at infinity" % len(dirs),
                          "ideal directions": dirs}, chunk=4)
@@ -1046,18 +1052,18 @@ def run(ctx):
         items += [{"k": x, "shape": [], "ideal": True} for x in idl]
         items.append({"k": idl, "shape": [len(idl)], "ideal": True})
         pc.append({"model": model, "tf": tf, "items": items})
-    ctx.product("points", "checks.c19:case_points", pc,
+    product("points", "checks.c19:case_points", pc,
                 domains={"points": "every lattice point singly, the whole lattice as one composite, (2,3) and (2,2,2) composites, ideal points"}, chunk=1)
 
     # horospheres, horoarcs
     refs = pts if not q else pts[:10]
     hc = [{"model": m, "tf": t, "xi": xi, "refs": refs} for m in CONFORMAL for t in TFS for xi in dirs]
-    ctx.product("horospheres", "checks.c19:case_horospheres", hc,
+    product("horospheres", "checks.c19:case_horospheres", hc,
                 domains={"centres": dirs, "reference points": len(refs), "models": CONFORMAL}, chunk=2)
     turns = [0.5, -0.5, 2.0, -2.0, 3.0]
     ac = [{"model": m, "tf": t, "xi": xi, "ref": p, "turns": turns}
           for m in CONFORMAL for t in TFS for xi in dirs for p in (pts[:6] if q else pts[:12])]
-    ctx.product("horoarcs", "checks.c19:case_horoarcs", ac,
+    product("horoarcs", "checks.c19:case_horoarcs", ac,
                 domains={"centres": dirs, "turns about the horocycle's Euclidean centre (rad)": turns}, chunk=4)
 
     # projective drawings, every chart
@@ -1075,7 +1081,7 @@ def run(ctx):
                         "items": [[list(a), list(b)] for a, b in itertools.permutations([ok[0:3], ok[1:4], ok[2:5]], 2)]})
             prc.append({"chart": chart, "tf": tf, "kind": "segment", "items": [list(c) for c in itertools.permutations(ok, 2)]})
     ctx.assume("projective objects have all three homogeneous coordinates away from 0 after the transform (they lie in every standard chart)")
-    ctx.product("projective", "checks.c19:case_projective", prc,
+    product("projective", "checks.c19:case_projective", prc,
                 domains={"charts": [0, 1, 2], "transforms": list(PTFS), "points": PL,
                          "objects": "points (single, composite), all ordered vertex triples%s, composites of two triangles, all ordered segments" % ("" if q else " and 4-tuples")}, chunk=2)
 
@@ -1088,5 +1094,5 @@ def run(ctx):
         for kind in ("point", "polygon", "segment"):
             for chart in (0, 1):
                 wc.append({"space": "projective", "kind": kind, "n": n, "model": chart})
-    ctx.product("wrong-dimension", "checks.c19:case_wrongdim", wc,
+    product("wrong-dimension", "checks.c19:case_wrongdim", wc,
                 domains={"dimensions": [1, 3, 4], "objects": "point, polygon, segment, geodesic, horosphere, horoarc; projective point, polygon, segment"}, chunk=2)
